@@ -1,0 +1,88 @@
+//go:build verif
+
+// Contracts for package gdbi, read by /verif/gvc (comment-only file; it declares
+// nothing and is compiled only with -tags verif).
+package gdbi
+
+// ---- C01: traveler copy-on-step --------------------------------------------------
+// AddCurrent: the result is a new traveler whose marks are pointwise those of t, whose
+// path is t's path extended by the id of r (as an edge id iff r has a To endpoint),
+// whose current element is r and whose signal is t's; t itself is unchanged.
+
+//@ func (*BaseTraveler).AddCurrent
+//@   property C01 C06
+//@   nopanic
+//@   requires nonnil: t != nil
+//@   let res = ptr(result, "*BaseTraveler")
+//@   let n = len(t.Path)
+//@   loop 1 invariant marks: (forall k:Str :: visited(k) ==> has(o.Marks, k) && o.Marks[k] == t.Marks[k]) &&
+//@       (forall k:Str :: has(o.Marks, k) ==> has(t.Marks, k) && o.Marks[k] == t.Marks[k])
+//@   loop 1 invariant shape: o.Marks != nil && o.Marks != t.Marks && len(o.Path) == n + 1 && soff(o.Path) == 0 && o.Signal == t.Signal && sref(o.Path) != sref(t.Path)
+//@   loop 2 invariant copied: forall j :: 0 <= j && j <= rangeindex ==> o.Path[j] == t.Path[j]
+//@   loop 2 invariant shape: len(o.Path) == n + 1 && soff(o.Path) == 0 && o.Signal == t.Signal && sref(o.Path) != sref(t.Path) && rangeindex < n &&
+//@       (forall k:Str :: has(o.Marks, k) <==> has(t.Marks, k)) && (forall k:Str :: has(t.Marks, k) ==> o.Marks[k] == t.Marks[k])
+//@   ensures isnew: dyn(result, "*BaseTraveler") && res != nil && res != t
+//@   ensures current: res.Current == r
+//@   ensures signal: res.Signal == t.Signal
+//@   ensures marksdom: forall k:Str :: has(res.Marks, k) <==> has(t.Marks, k)
+//@   ensures marksval: forall k:Str :: has(t.Marks, k) ==> res.Marks[k] == t.Marks[k]
+//@   ensures pathlen: len(res.Path) == n + 1
+//@   ensures pathprefix: forall j :: 0 <= j && j < n ==> res.Path[j] == t.Path[j]
+//@   ensures pathlast: (r == nil ==> res.Path[n].Vertex == "" && res.Path[n].Edge == "") &&
+//@       (r != nil && r.To != "" ==> res.Path[n].Edge == r.ID && res.Path[n].Vertex == "") &&
+//@       (r != nil && r.To == "" ==> res.Path[n].Vertex == r.ID && res.Path[n].Edge == "")
+//@   ensures tkept: t.Current == old(t.Current) && t.Signal == old(t.Signal) && len(t.Path) == old(len(t.Path))
+
+// AddMark: marks = t's marks with label bound to r; path and current element kept.
+//@ func (*BaseTraveler).AddMark
+//@   property C01 C06
+//@   nopanic
+//@   requires nonnil: t != nil
+//@   let res = ptr(result, "*BaseTraveler")
+//@   let n = len(t.Path)
+//@   loop 1 invariant marks: (forall k:Str :: visited(k) ==> has(o.Marks, k) && o.Marks[k] == t.Marks[k]) &&
+//@       (forall k:Str :: has(o.Marks, k) ==> has(t.Marks, k) && o.Marks[k] == t.Marks[k])
+//@   loop 1 invariant shape: o.Marks != nil && o.Marks != t.Marks && len(o.Path) == n && soff(o.Path) == 0 && sref(o.Path) != sref(t.Path)
+//@   loop 2 invariant copied: forall j :: 0 <= j && j <= rangeindex ==> o.Path[j] == t.Path[j]
+//@   loop 2 invariant shape: len(o.Path) == n && soff(o.Path) == 0 && sref(o.Path) != sref(t.Path) && rangeindex < n && has(o.Marks, label) && o.Marks[label] == r &&
+//@       (forall k:Str :: k != label ==> (has(o.Marks, k) <==> has(t.Marks, k))) && (forall k:Str :: k != label && has(t.Marks, k) ==> o.Marks[k] == t.Marks[k])
+//@   ensures isnew: dyn(result, "*BaseTraveler") && res != nil && res != t
+//@   ensures bound: has(res.Marks, label) && res.Marks[label] == r
+//@   ensures others: forall k:Str :: k != label ==> ((has(res.Marks, k) <==> has(t.Marks, k)) && (has(t.Marks, k) ==> res.Marks[k] == t.Marks[k]))
+//@   ensures current: res.Current == t.Current
+//@   ensures pathlen: len(res.Path) == n
+//@   ensures path: forall j :: 0 <= j && j < n ==> res.Path[j] == t.Path[j]
+
+//@ func (*BaseTraveler).GetCurrentID
+//@   property C06
+//@   nopanic
+//@   pure
+//@   requires nonnil: t != nil
+//@   requires notnull: t.Current != nil
+//@   ensures id: result == t.Current.ID
+
+//@ func (*BaseTraveler).IsSignal
+//@   property C01
+//@   pure
+//@   requires nonnil: tr != nil
+//@   ensures def: result <==> tr.Signal != nil
+
+//@ func (*BaseTraveler).IsNull
+//@   property C01
+//@   pure
+//@   requires nonnil: tr != nil
+//@   ensures def: result <==> tr.Current == nil
+
+//@ func (*DataElement).ToVertex
+//@   property C06
+//@   nopanic
+//@   pure
+//@   requires nonnil: elem != nil
+//@   ensures nonnil: result != nil
+
+//@ func (*DataElement).ToEdge
+//@   property C06
+//@   nopanic
+//@   pure
+//@   requires nonnil: elem != nil
+//@   ensures nonnil: result != nil
